@@ -181,6 +181,7 @@ SyntaxVisitor::Action Disambiguator::visitTranslationUnit(const TranslationUnitS
 SyntaxVisitor::Action Disambiguator::visitStaticAssertDeclaration(const StaticAssertDeclarationSyntax* node)
 {
     visitMaybeAmbiguousExpression(node->expr_);
+    visitMaybeAmbiguousExpression(node->strLit_);
 
     return Action::Skip;
 }
@@ -201,8 +202,10 @@ SyntaxVisitor::Action Disambiguator::visitExtGNU_Typeof(const ExtGNU_TypeofSynta
 
 SyntaxVisitor::Action Disambiguator::visitSubscriptSuffix(const SubscriptSuffixSyntax* node)
 {
+    visit(node->qualsAndAttrs1_);
     if (node->expr_)
         visitMaybeAmbiguousExpression(node->expr_);
+    visit(node->qualsAndAttrs2_);
 
     return Action::Skip;
 }
@@ -215,6 +218,45 @@ SyntaxVisitor::Action Disambiguator::visitExpressionInitializer(const Expression
 SyntaxVisitor::Action Disambiguator::visitArrayDesignator(const ArrayDesignatorSyntax* node)
 {
     visitMaybeAmbiguousExpression(node->expr_);
+
+    return Action::Skip;
+}
+
+SyntaxVisitor::Action Disambiguator::visitEnumeratorDeclaration(const EnumeratorDeclarationSyntax* node)
+{
+    visit(node->attrs_);
+    visitMaybeAmbiguousExpression(node->expr_);
+
+    return Action::Skip;
+}
+
+SyntaxVisitor::Action Disambiguator::visitExtGNU_AsmStatementDeclaration(const ExtGNU_AsmStatementDeclarationSyntax* node)
+{
+    visitMaybeAmbiguousExpression(node->strLit_);
+
+    return Action::Skip;
+}
+
+SyntaxVisitor::Action Disambiguator::visitExtGNU_Attribute(const ExtGNU_AttributeSyntax* node)
+{
+    for (auto iter = node->exprs_; iter; iter = iter->next)
+        visitMaybeAmbiguousExpression(iter->value);
+
+    return Action::Skip;
+}
+
+SyntaxVisitor::Action Disambiguator::visitExtGNU_AsmLabel(const ExtGNU_AsmLabelSyntax* node)
+{
+    visitMaybeAmbiguousExpression(node->strLit_);
+
+    return Action::Skip;
+}
+
+SyntaxVisitor::Action Disambiguator::visitBitfieldDeclarator(const BitfieldDeclaratorSyntax* node)
+{
+    visit(node->innerDecltor_);
+    visitMaybeAmbiguousExpression(node->expr_);
+    visit(node->attrs_);
 
     return Action::Skip;
 }
@@ -257,6 +299,8 @@ SyntaxVisitor::Action Disambiguator::visitExtGNU_EnclosedCompoundStatementExpres
 SyntaxVisitor::Action Disambiguator::visitExtGNU_ComplexValuedExpression(
         const ExtGNU_ComplexValuedExpressionSyntax* node)
 {
+    visitMaybeAmbiguousExpression(node->expr_);
+
     return Action::Skip;
 }
 
@@ -277,6 +321,7 @@ SyntaxVisitor::Action Disambiguator::visitPostfixUnaryExpression(const PostfixUn
 SyntaxVisitor::Action Disambiguator::visitMemberAccessExpression(const MemberAccessExpressionSyntax* node)
 {
     visitMaybeAmbiguousExpression(node->expr_);
+    visit(node->memberName_);
 
     return Action::Skip;
 }
@@ -284,6 +329,7 @@ SyntaxVisitor::Action Disambiguator::visitMemberAccessExpression(const MemberAcc
 SyntaxVisitor::Action Disambiguator::visitArraySubscriptExpression(const ArraySubscriptExpressionSyntax* node)
 {
     visitMaybeAmbiguousExpression(node->expr_);
+    visitMaybeAmbiguousExpression(node->arg_);
 
     return Action::Skip;
 }
@@ -295,6 +341,7 @@ SyntaxVisitor::Action Disambiguator::visitTypeTraitExpression(const TypeTraitExp
 
 SyntaxVisitor::Action Disambiguator::visitCastExpression(const CastExpressionSyntax* node)
 {
+    visit(node->typeName_);
     visitMaybeAmbiguousExpression(node->expr_);
 
     return Action::Skip;
@@ -303,6 +350,8 @@ SyntaxVisitor::Action Disambiguator::visitCastExpression(const CastExpressionSyn
 SyntaxVisitor::Action Disambiguator::visitCallExpression(const CallExpressionSyntax* node)
 {
     visitMaybeAmbiguousExpression(node->expr_);
+    for (auto iter = node->args_; iter; iter = iter->next)
+        visitMaybeAmbiguousExpression(iter->value);
 
     return Action::Skip;
 }
@@ -310,6 +359,7 @@ SyntaxVisitor::Action Disambiguator::visitCallExpression(const CallExpressionSyn
 SyntaxVisitor::Action Disambiguator::visitVAArgumentExpression(const VAArgumentExpressionSyntax* node)
 {
     visitMaybeAmbiguousExpression(node->expr_);
+    visit(node->typeName_);
 
     return Action::Skip;
 }
@@ -349,6 +399,7 @@ SyntaxVisitor::Action Disambiguator::visitSequencingExpression(const SequencingE
 
 SyntaxVisitor::Action Disambiguator::visitExtGNU_ChooseExpression(const ExtGNU_ChooseExpressionSyntax* node)
 {
+    visitMaybeAmbiguousExpression(node->constExpr_);
     visitMaybeAmbiguousExpression(node->expr1_);
     visitMaybeAmbiguousExpression(node->expr2_);
 
@@ -369,6 +420,8 @@ SyntaxVisitor::Action Disambiguator::visitCompoundStatement(const CompoundStatem
 
 SyntaxVisitor::Action Disambiguator::visitDeclarationStatement(const DeclarationStatementSyntax* node)
 {
+    visit(node->decl_);
+
     return Action::Skip;
 }
 
@@ -382,6 +435,7 @@ SyntaxVisitor::Action Disambiguator::visitExpressionStatement(const ExpressionSt
 
 SyntaxVisitor::Action Disambiguator::visitLabeledStatement(const LabeledStatementSyntax* node)
 {
+    visitMaybeAmbiguousExpression(node->expr_);
     visitMaybeAmbiguousStatement(node->stmt_);
 
     return Action::Skip;
@@ -424,7 +478,7 @@ SyntaxVisitor::Action Disambiguator::visitDoStatement(const DoStatementSyntax* n
 
 SyntaxVisitor::Action Disambiguator::visitForStatement(const ForStatementSyntax* node)
 {
-    visit(node->initStmt_);
+    visitMaybeAmbiguousStatement(node->initStmt_);
     if (node->cond_)
         visitMaybeAmbiguousExpression(node->cond_);
     if (node->expr_)
@@ -442,8 +496,33 @@ SyntaxVisitor::Action Disambiguator::visitReturnStatement(const ReturnStatementS
     return Action::Skip;
 }
 
+SyntaxVisitor::Action Disambiguator::visitGotoStatement(const GotoStatementSyntax* node)
+{
+    visitMaybeAmbiguousExpression(node->expr_);
+
+    return Action::Skip;
+}
+
+SyntaxVisitor::Action Disambiguator::visitExtGNU_AsmStatement(const ExtGNU_AsmStatementSyntax* node)
+{
+    visit(node->asmQuals_);
+    visitMaybeAmbiguousExpression(node->strLit_);
+    for (auto iter = node->outOprds_; iter; iter = iter->next)
+        visit(iter->value);
+    for (auto iter = node->inOprds_; iter; iter = iter->next)
+        visit(iter->value);
+    for (auto iter = node->clobs_; iter; iter = iter->next)
+        visitMaybeAmbiguousExpression(iter->value);
+    for (auto iter = node->labels_; iter; iter = iter->next)
+        visitMaybeAmbiguousExpression(iter->value);
+
+    return Action::Skip;
+}
+
 SyntaxVisitor::Action Disambiguator::visitExtGNU_AsmOperand(const ExtGNU_AsmOperandSyntax* node)
 {
+    visitMaybeAmbiguousExpression(node->oprdName_);
+    visitMaybeAmbiguousExpression(node->constr_);
     visitMaybeAmbiguousExpression(node->expr_);
 
     return Action::Skip;
